@@ -1,3 +1,4 @@
+import Fpdec.Kernels.IntConv
 import Fpdec.Lemmas.Unary
 import Fpdec.Props.C14_Sites
 
@@ -34,5 +35,21 @@ theorem spec_meaning (t : IntTy) (a : Int) (p : Nat) :
 example : intoInt IntTy.i128 ⟨100, 2⟩ = .ok (.ok 1) ∧ intoInt IntTy.u8 ⟨25600, 2⟩ = .ok (.error .outOfRange) := by decide
 example : intoInt IntTy.u128 ⟨-15, 1⟩ = .ok (.error .notAnInt) ∧ intoInt IntTy.u128 ⟨-10, 1⟩ = .ok (.error .outOfRange) := by
   decide
+
+/-! ### translated kernels
+The Lean definitions `Gen.K.*` are regenerated from the Rust source on every run by `tools/fpkernels.py` (expression-level
+translation).  These theorems tie them to the hand-written model the property theorems above are about: a change of the Rust
+kernel that changes its translation breaks them. -/
+/-- the integer conversions of into_int.rs and from_int.rs (macro bodies instantiated at `i64`), as translated on this run -/
+theorem kernel_i128_try_from_decimal (prof : Profile) (d : Dec) :
+    Gen.K.i128_try_from_decimal prof d = Kernels.intoResult <$> intoI128 d := Kernels.i128_try_from_decimal_eq prof d
+theorem kernel_int_try_from_decimal (prof : Profile) (d : Dec) :
+    Gen.K.i64_try_from_decimal prof d = Kernels.intoResult <$> intoInt IntTy.i64 d := Kernels.i64_try_from_decimal_eq prof d
+theorem kernel_decimal_from_int (prof : Profile) (i : Int) : Gen.K.decimal_from_int prof i = .ok (fromInt i) :=
+  Kernels.decimal_from_int_eq prof i
+theorem kernel_decimal_try_from_u128 (prof : Profile) (i : Nat) :
+    Gen.K.decimal_try_from_u128 prof i =
+      .ok (match tryFromU128 i with | some d => .ok d | none => .error .internalOverflow) :=
+  Kernels.decimal_try_from_u128_eq prof i
 
 end Fpdec.Props.C14
